@@ -19,11 +19,14 @@ pub struct Style {
     pub index_attrs: bool,
     /// print every string char as \u{..}
     pub escape_all: bool,
+    /// print `.kw` for attribute names that are reserved words (the grammar admits any identifier after `.`)
+    #[serde(default)]
+    pub dot_reserved: bool,
 }
 
 impl Default for Style {
     fn default() -> Self {
-        Style { paren: Paren::Minimal, index_attrs: false, escape_all: false }
+        Style { paren: Paren::Minimal, index_attrs: false, escape_all: false, dot_reserved: false }
     }
 }
 
@@ -274,7 +277,7 @@ fn go(e: &E, st: &Style, out: &mut String) {
         }
         E::GetAttr(a, k) => {
             child(a, P_MEMBER, st, out);
-            if is_plain_ident(k) && !st.index_attrs {
+            if (is_plain_ident(k) || (st.dot_reserved && is_any_ident(k))) && !st.index_attrs {
                 out.push('.');
                 out.push_str(k);
             } else {
